@@ -24,7 +24,8 @@ class GenError(Exception):
 
 MOD_HEADER = ('#[allow(unused_imports)] use vstd::prelude::*;\n'
               '#[allow(unused_imports)] use crate::vspec::*;\n'
-              '#[allow(unused_imports)] use crate::{ReadSpec, WriteSpec, BufReadSpec};\n')
+              '#[allow(unused_imports)] use crate::{ReadSpec, WriteSpec, BufReadSpec};\n'
+              'broadcast use {crate::axiom_src_eq_refl, crate::axiom_src_eq_trans};\n')
 
 
 class Seg:
@@ -145,7 +146,15 @@ def annotate_module(modpath, src, ov, report):
             if lp['start']:
                 ins(ob + 1, '\n' + lp['start'], dict(meta_base, kind='loop_start', loop=k))
             if lp['end']:
-                ins(cb, lp['end'], dict(meta_base, kind='loop_end', loop=k))
+                # a loop body ending in a unit tail expression (`x = e` without `;`) needs a `;`
+                # before ghost text can follow; semantically neutral, counted as R14
+                kk = cb - 1
+                while m[kk].isspace():
+                    kk -= 1
+                semi = '' if m[kk] in ';}{' else ';'
+                if semi:
+                    report['rule_counts']['R14.loop_tail_semicolon'] += 1
+                ins(cb, semi + '\n' + lp['end'], dict(meta_base, kind='loop_end', loop=k))
         for kind, rx, text in fo.anchors:
             body = src[it.sig_end + 1:it.end]
             pos = None
